@@ -538,6 +538,8 @@ void World::CheckOutput(const InvRecord& r) {
       else stats->n["failed_blocks_checked"]++;
     } else if (!r.plan.quiet) {
       bool ok = EndsWith(T, before, desc + "\n");
+      // (a --status format without $description prints the counters alone)
+      if (!ok && r.plan.status_mode == 2 && !r.plan.status_fmt.empty() && r.plan.status_fmt.find("$description") == std::string::npos) ok = EndsWith(T, before, "]\n");
       if (!ok && IoFault(r)) {
         // a command that succeeded can still fail as an edge (its depfile cannot be read or
         // removed): ninja then shows its output under a FAILED header with status 1
